@@ -58,7 +58,7 @@ def fromSpecifierSet (cs : List (Clause Ver)) : Option (Spec Ver) :=
 inductive Alt where
   | empty                             -- the text `<empty>`
   | clauses (cs : List (Clause Ver))  -- a comma separated specifier set (possibly no clause: "")
-deriving Repr
+deriving Repr, DecidableEq
 
 def parseAlt : Alt → Option (Spec Ver)
   | .empty => some .empty
